@@ -14,6 +14,9 @@ import (
 
 const zz = "github.com/jackalLabs/canine-chain/v4/zzverif."
 
+// ThoroughTier is set by the driver (-tier thorough): harnesses may widen their bounds.
+var ThoroughTier = false
+
 type Scenario struct {
 	Harness string                 `json:"harness"`
 	Ob      string                 `json:"obligation"`
@@ -23,6 +26,7 @@ type Scenario struct {
 	Bal     []BalRec               `json:"balances,omitempty"`
 	Blocked []string               `json:"blocked,omitempty"`
 	Raw     map[string]string      `json:"raw_model,omitempty"`
+	Thorough bool                  `json:"thorough"`
 }
 
 type StoreRec struct {
@@ -159,6 +163,16 @@ func init() {
 		}
 		return outs
 	})
+	reg(zz+"Override", func(c *CallCtx, a []Value) []Outcome {
+		iv := a[1].(*IfaceV)
+		f, ok := iv.V.(*FuncV)
+		if !ok {
+			throwf("Override stub must be a function")
+		}
+		c.S.W.Ghost["override:"+constStr(a[0], "function name")] = f
+		return retNone()
+	})
+	reg(zz+"Thorough", func(c *CallCtx, a []Value) []Outcome { return ret1(MkBool(ThoroughTier)) })
 	reg(zz+"Deref", func(c *CallCtx, a []Value) []Outcome {
 		iv := a[0].(*IfaceV)
 		p, ok := iv.V.(*Ptr)
@@ -335,7 +349,9 @@ func init() {
 		declTable(tbl)
 		k1, k2 := strOf(a[1]), strOf(a[2])
 		c.S.W.noteEval("tbl|"+tbl, App("tbl0_"+tbl, k1, k2), k1, k2)
-		return ret1(newBig(c.S, c.S.W.tblGet(tbl, k1, k2)))
+		// resolve the aliasing questions against the path condition now, so that later arithmetic
+		// obligations about balances are free of string reasoning
+		return ret1(newBig(c.S, c.E.tblGetDecided(c.S, tbl, k1, k2)))
 	})
 	reg(zz+"TblSet", func(c *CallCtx, a []Value) []Outcome {
 		tbl := constStr(a[0], "table")
@@ -401,6 +417,31 @@ func (w *World) noteEval(kind string, app *Term, args ...*Term) {
 	}
 }
 
+// withEvalsIn adds the evaluation helpers whose terms already occur in the (sliced) query.
+func (e *Engine) withEvalsIn(s *State, asserts []*Term) []*Term {
+	have := map[int]bool{}
+	for _, a := range asserts {
+		for _, x := range Symbols(a) {
+			have[x] = true
+		}
+	}
+	out := append([]*Term(nil), asserts...)
+	for i, en := range s.W.Evals {
+		ok := true
+		for _, x := range Symbols(en.T) {
+			if !have[x] {
+				ok = false
+				break
+			}
+		}
+		if ok {
+			ev := MkVar(fmt.Sprintf("evalx.%d", i), en.T.Sort)
+			out = append(out, Eq(ev, en.T))
+		}
+	}
+	return out
+}
+
 func (e *Engine) withEvals(s *State, asserts []*Term) []*Term {
 	out := append([]*Term(nil), asserts...)
 	for i, en := range s.W.Evals {
@@ -415,15 +456,37 @@ func (e *Engine) checkObligation(s *State, id string, cond *Term) {
 	if cond == TTrue {
 		r.Verdict, r.Solver = "discharged", "simp"
 	} else {
-		asserts := append(s.pcTerms(), Not(cond))
-		v, m, syms, who := s.pf.CheckSyms(e.withEvals(s, asserts), e.Cfg.AssertMs, true)
+		// 1. the cone of influence of the negated assertion (sound: unsat of a subset of the constraints
+		//    implies unsat of all of them); a model of the cone extends to the whole path condition by the
+		//    cached path model (constraint independence)
+		neg := Not(cond)
+		var v Verdict
+		var m Model
+		var syms []*Term
+		var who string
+		var cm *CachedModel
+		sliced := append(Slice(s.pcTerms(), neg), neg)
+		if s.model != nil && !NoModelReuse && len(sliced) < pcLen(s)+1 {
+			v, m, syms, who = s.pf.CheckSyms(e.withEvalsIn(s, sliced), e.Cfg.AssertMs, true)
+			if v == Sat {
+				cm = NewCachedModel(s.model, m, syms)
+			}
+			who += "+slice"
+		}
+		if v == Unknown || (v == Sat && cm == nil) {
+			asserts := append(s.pcTerms(), neg)
+			v, m, syms, who = s.pf.CheckSyms(e.withEvals(s, asserts), e.Cfg.AssertMs, true)
+			if v == Sat {
+				cm = NewCachedModel(nil, m, syms)
+			}
+		}
 		r.Solver = who
 		switch v {
 		case Unsat:
 			r.Verdict = "discharged"
 		case Sat:
 			r.Verdict = "violated"
-			r.Scenario = e.scenario(s, NewCachedModel(nil, m, syms), id)
+			r.Scenario = e.scenario(s, cm, id)
 		default:
 			r.Verdict = "unknown"
 		}
@@ -449,7 +512,7 @@ func (e *Engine) logfAlways(format string, a ...interface{}) {
 
 // scenario converts a model into concrete inputs for the native replay.
 func (e *Engine) scenario(s *State, cm *CachedModel, ob string) *Scenario {
-	sc := &Scenario{Harness: e.Harness, Ob: ob, Nondet: map[string]interface{}{}}
+	sc := &Scenario{Harness: e.Harness, Ob: ob, Nondet: map[string]interface{}{}, Thorough: ThoroughTier}
 	toGo := func(v MVal) interface{} {
 		switch {
 		case v.I != nil:
@@ -638,4 +701,24 @@ func smtUnescape(lit string) []byte {
 		out = append(out, c)
 	}
 	return out
+}
+
+
+// tblGetDecided is World.tblGet with every key comparison first decided against the path condition.
+func (e *Engine) tblGetDecided(s *State, tbl string, k1, k2 *Term) *Term {
+	base := App("tbl0_"+tbl, k1, k2)
+	var nodes []*tblNode
+	for n := s.W.Tables[tbl]; n != nil; n = n.next {
+		nodes = append(nodes, n)
+	}
+	r := base
+	for i := len(nodes) - 1; i >= 0; i-- {
+		n := nodes[i]
+		c := And(Eq(k1, n.k1), Eq(k2, n.k2))
+		if !c.IsConst() {
+			c = e.decide(s, c)
+		}
+		r = Ite(c, n.v, r)
+	}
+	return r
 }
